@@ -52,10 +52,44 @@ func knownNil(g *GC, t *Term) bool {
 	return false
 }
 
-func parentStore(g *GC, child, owner *Term, ownerNil bool) bool {
-	cs := noEpoch(child)
+// sameValue: two terms denote the same value — identical including load versions, or identical up to versions when they
+// contain no load of a link field that is stored on this path (re-reading x.Left after `x.Left = y` is a different value).
+func sameValue(g *GC, a, b *Term) bool {
+	if a.String() == b.String() {
+		return true
+	}
+	if noEpoch(a) != noEpoch(b) {
+		return false
+	}
+	stored := map[string]bool{}
 	for _, ef := range g.Effects {
-		if !storeToField(ef, "Parent") || noEpoch(ef.Args[0].Args[0]) != cs {
+		if isStore(ef) && ef.Args[0].Op == "fa" {
+			stored[ef.Args[0].Leaf] = true
+		}
+		if isStore(ef) && ef.Args[0].Op == "ia" {
+			stored["[]"] = true
+		}
+	}
+	clean := true
+	chk := func(t *Term) bool {
+		if t.Op == "load" && len(t.Args) == 1 {
+			if t.Args[0].Op == "fa" && stored[t.Args[0].Leaf] {
+				clean = false
+			}
+			if t.Args[0].Op == "ia" && stored["[]"] {
+				clean = false
+			}
+		}
+		return false
+	}
+	a.any(chk)
+	b.any(chk)
+	return clean
+}
+
+func parentStore(g *GC, child, owner *Term, ownerNil bool) bool {
+	for _, ef := range g.Effects {
+		if !storeToField(ef, "Parent") || !sameValue(g, ef.Args[0].Args[0], child) {
 			continue
 		}
 		if ownerNil {
@@ -253,9 +287,7 @@ func checkLinkSite(c *Ctx, gc *GCNF, s *linkSite) string {
 		return ""
 	} else if s.form == "field" || s.form == "array" || s.form == "elem" {
 		// the child may be named by re-reading the link that was just stored (s.Children[a] = x; if s.Children[a] != nil { s.Children[a].Parent = s })
-		alias := *s
-		alias.child = nodeL("load", "", s.g.Effects[s.idx].Args[0])
-		if checkLinkSite1(c, gc, &alias) == "" {
+		if parentStoreOfReread(s) {
 			return ""
 		}
 		return r
@@ -701,4 +733,39 @@ func ruleR27(c *Ctx) *RuleResult {
 		}
 	}
 	return r
+}
+
+// parentStoreOfReread: after `ADDR = y`, a later `(load ADDR).Parent = owner` on the same path, with no other store to ADDR in between.
+func parentStoreOfReread(s *linkSite) bool {
+	g := s.g
+	addr := noEpoch(g.Effects[s.idx].Args[0])
+	// the re-read link is known nil: nothing to re-parent (versions of loads of ADDR that occur up to and including the
+	// store are reads of the old occupant and do not count)
+	pre := map[string]bool{}
+	for i := 0; i <= s.idx; i++ {
+		g.Effects[i].any(func(t *Term) bool {
+			if t.Op == "load" && len(t.Args) == 1 && noEpoch(t.Args[0]) == addr {
+				pre[t.Leaf] = true
+			}
+			return false
+		})
+	}
+	for _, a := range g.Guards {
+		if a.Op == "==" && a.Args[0].String() == "#:nil" && a.Args[1].Op == "load" && noEpoch(a.Args[1].Args[0]) == addr && !pre[a.Args[1].Leaf] {
+			return true
+		}
+	}
+	for i := s.idx + 1; i < len(g.Effects); i++ {
+		ef := g.Effects[i]
+		if isStore(ef) && noEpoch(ef.Args[0]) == addr {
+			return false // the link was overwritten first
+		}
+		if storeToField(ef, "Parent") {
+			obj := ef.Args[0].Args[0]
+			if obj.Op == "load" && len(obj.Args) == 1 && noEpoch(obj.Args[0]) == addr && s.owner != nil && noEpoch(ef.Args[1]) == noEpoch(s.owner) {
+				return true
+			}
+		}
+	}
+	return false
 }
